@@ -395,6 +395,9 @@ func (p *Processor) ChargingDataRelease(
 		return problemDetails
 	}
 
+	// the reference no longer designates a session (the closed record stays in ue.Records)
+	delete(ue.Cdr, chargingSessionId)
+
 	return nil
 }
 
